@@ -245,7 +245,7 @@ def run(ctx):
     cfgs = {
         "quick": [("MC_Sections_quick.cfg", "state-space W=4 depth 6"), ("MC_Sections_plain.cfg", "plain mode")],
         "thorough": [("MC_Sections_thorough.cfg", "state-space W=4 depth 7"), ("MC_Sections_w7.cfg", "state-space W=7 depth 6"),
-                     ("MC_Sections_plain.cfg", "plain mode")],
+                     ("MC_Sections_deep2.cfg", "state-space W=4 depth 8, 2 sections"), ("MC_Sections_plain.cfg", "plain mode")],
     }[ctx.tier]
     for cfg, name in cfgs:
         ctx.model(SPEC, "MC_Sections", cfg, name=name, workers=8)
